@@ -1368,6 +1368,27 @@ mut("C07", "bg-status-test-before-sigcont", "R07-6|builtins::bg::run|sigcont-bef
                     libc::killpg(gid, libc::SIGCONT);
                 }"""))
 
+mut("C14", "condition-by-first-status", "R14-11|scripting::run_exp_test_br|condition-status",
+    "the condition looks at the first result of its list",
+    (SC, """            if let Some(last) = _cr_list.last() {
+                if last.status == 0 {
+                    test_pass = true;
+                }
+            }
+            continue;""", """            if let Some(last) = _cr_list.first() {
+                if last.status == 0 {
+                    test_pass = true;
+                }
+            }
+            continue;"""))
+mut("C11", "glob-after-substitution", "R11-11|shell::do_expansion|after-substitution|expand_glob",
+    "expand_glob moved behind do_command_substitution",
+    (S, """    expand_glob(tokens);
+    do_command_substitution(sh, tokens);
+""", """    do_command_substitution(sh, tokens);
+    expand_glob(tokens);
+"""))
+
 # ------------------------------------------------------------------ more refactors
 ref("history-params-vec", ["C18"], "bind the INSERT parameters through a params! style slice",
     (H, "    match conn.execute(&sql, [line.trim(), info.as_str()]) {",
